@@ -20,6 +20,27 @@ def main(argv):
             if argv[1] in p:
                 print(p, '%s:%d' % (b['file'], b['lo']), b.get('vis', ''), 'exported' if b.get('exported') else '')
         return 0
+    if cmd in ('conds', 'calls', 'rets'):
+        from . import facts, core, flow
+        F = facts.load(config=_opt(argv, '--config', 'rel'))
+        for b in F.find(argv[1]):
+            a = core.an(b)
+            print('==', b['qpath'])
+            if cmd == 'conds':
+                for blk in sorted(a.cfg.reach0):
+                    ce = core.cond_edges(a, blk)
+                    if ce:
+                        print('  bb%d L%d %s  %s  |  %s   T%s F%s' % (blk, a.line(blk), ce[0], flow.show(ce[1])[:110], flow.show(ce[2])[:110], ce[3], ce[4]))
+            elif cmd == 'calls':
+                for cb in a.calls():
+                    t = a.term(cb)
+                    if t.get('ex') and 'tracing' in t.get('mac', ''):
+                        continue
+                    print('  bb%d L%d %s(%s)' % (cb, a.line(cb), core.strip_generics(t.get('fn', '?')), ', '.join(flow.show(a.arg(cb, i))[:70] for i in range(len(t['args'])))))
+            else:
+                for (blk, si, k, e) in a.ret_sites():
+                    print('  bb%d L%d %s %s' % (blk, a.line(blk, si if si < 10**6 else None), k, flow.show(e)[:200]))
+        return 0
     if cmd == 'setup':
         from . import runner
         return runner.setup()
